@@ -43,6 +43,8 @@ def check_clause(job, env):
         return check_compile(job, env)
     if fam == "lp":
         return check_lp(job, env)
+    if fam == "sanitize":
+        return check_sanitize(job)
     args = [build(a) for a in job["args"]]
     fn = resolve(job["fn"])
     clause = job["clause"].split("#")[0]
@@ -136,6 +138,25 @@ def check_compile(job, env):
     if not math.isfinite(exp):
         return None, "outside domain"
     return (not close(got, exp)), f"compiled value {got}, formula value {exp} at {dict(zip(order, x.tolist()))}"
+
+
+def check_sanitize(job):
+    """C19 clause of _sanitize_derivatives on one concrete array: finite output, finite entries unchanged, NaN -> 0,
+    +Inf -> 1e16, -Inf -> -1e16 (entries are given as floats or the strings 'nan', 'inf', '-inf')."""
+    import numpy as np
+    from optyx.core.compiler import _sanitize_derivatives
+    a = np.array([float(x) for x in job["args"][0]], dtype=float)
+    if job["args"][0] and job.get("shape"):
+        a = a.reshape(job["shape"])
+    with np.errstate(all="ignore"):
+        out = np.asarray(_sanitize_derivatives(a.copy()), dtype=float)
+    if out.shape != a.shape:
+        return True, f"shape {out.shape} for input shape {a.shape}"
+    for x, y in zip(a.reshape(-1), out.reshape(-1)):
+        want = 0.0 if x != x else (1e16 if x == float("inf") else (-1e16 if x == float("-inf") else x))
+        if not (y == y and abs(y) != float("inf")) or y != want:
+            return True, f"_sanitize_derivatives({a.tolist()}) = {out.tolist()}: entry {x} became {y}, expected {want}"
+    return False, "as specified"
 
 
 def check_lp(job, env):
